@@ -98,6 +98,10 @@ impl EventIdGenerator {
 }
 
 fn current_millis() -> u64 {
+    #[cfg(feature = "verif-hooks")]
+    if let Some(ms) = crate::verif_hooks::now_millis() {
+        return ms;
+    }
     SystemTime::now()
         .duration_since(UNIX_EPOCH)
         .unwrap_or(Duration::ZERO)
